@@ -558,7 +558,7 @@ WRONG_KIND = {
     "time": ["\"2020-13-01T00:00:00Z\"", "\"yesterday\"", "1577836800", "\"2020-01-01\"", "\"2020-01-01T00:00:00\""],
     "token": ["\"bad token!\"", "\"\"", "5", "\"a=b\""],
     "bin": ["\"not base64!\"", "\"AA=\"", "\"A\"", "5", "[1,2]"],
-    "enum": ["\"red\"", "\"\"", "\"BAD-NAME\"", "5", "null", "\"RED \""],
+    "enum": ["\"red\"", "\"\"", "\"BAD-NAME\"", "5", "null", "\"RED \"", "\"\u00c9CRU\"", "\"\u03a3IGMA\"", "\"BLUE_\u00b2\"", "\"\u2167\"", "\"BLUE_\u0663\"", "\"A\u0130\""],
 }
 
 
